@@ -109,15 +109,21 @@ proof fn lemma_cwb_begin<V>(n: NfaBuilder<char, V>, st: Seq<State>, tb: Seq<u32>
     }
 }
 
+// what placing child k does to the array and the id map
+spec fn cwb_step_rel(st: Seq<State>, st2: Seq<State>, map: Seq<u32>, map2: Seq<u32>, inv: Map<int, int>, sid: int, base: u32, s1: Seq<(u32, u32)>, k: int) -> bool {
+    let y = (base ^ s1[k].0) as int; let child = s1[k].1 as int;
+    &&& 2 <= y < st.len() && !inv.contains_key(y)
+    &&& st2.len() == st.len() && st2[y] == (State { check: map[sid], ..st[y] })
+    &&& forall|z: int| 0 <= z < st.len() && z != y ==> #[trigger] st2[z] == st[z]
+    &&& map2 == map.update(child, y as u32)
+}
 // one child placed: slot y = base ^ code gets CHECK = slot of sid, the child's id is recorded
+#[verifier::spinoff_prover]
+#[verifier::rlimit(100)]
 proof fn lemma_cwb_step<V>(n: NfaBuilder<char, V>, st: Seq<State>, st2: Seq<State>, tb: Seq<u32>, map: Seq<u32>, map2: Seq<u32>, inv: Map<int, int>, owner: Map<int, int>,
                            done: Set<int>, sid: int, base: u32, bl: u32, s1: Seq<(u32, u32)>, k: int)
     requires cwb(n, st, tb, map, inv, owner, done, sid, base, s1, k), nfa_tree(n), mapped_ok(n, sid, tb, bl, s1), 0 <= k < s1.len(), 0 <= sid,
-        ({ let y = (base ^ s1[k].0) as int; let child = s1[k].1 as int;
-           &&& 2 <= y < st.len() && !inv.contains_key(y)
-           &&& st2.len() == st.len() && st2[y] == (State { check: map[sid], ..st[y] })
-           &&& forall|z: int| 0 <= z < st.len() && z != y ==> #[trigger] st2[z] == st[z]
-           &&& map2 == map.update(child, y as u32) }),
+        cwb_step_rel(st, st2, map, map2, inv, sid, base, s1, k),
     ensures cwb(n, st2, tb, map2, inv.insert((base ^ s1[k].0) as int, s1[k].1 as int), owner, done, sid, base, s1, k + 1),
 {
     let len = n.states@.len();
